@@ -65,6 +65,42 @@ def load(raw):
     return api.read_sunvox_file(BytesIO(raw))
 
 
+def fresh_process_reload(res, prop, cases):
+    """cases: [(bytes, normalised snapshot taken by THIS process before saving, description)].  A fresh interpreter loads the
+    bytes; differences are violations `<prop>:fresh-process:<field>`."""
+    import json
+    import os
+    import pickle
+    import shutil
+    import subprocess
+    import sys
+    import tempfile
+    if not cases:
+        return
+    tdir = tempfile.mkdtemp(prefix="rvmon-reload-", dir=os.environ.get("TMPDIR", "/var/tmp"))
+    try:
+        src, out = os.path.join(tdir, "cases.pickle"), os.path.join(tdir, "out.json")
+        with open(src, "wb") as f:
+            pickle.dump(cases, f)
+        envv = dict(os.environ)
+        envv.pop("RVMON_RV_LOGLEVEL", None)
+        r = subprocess.run([sys.executable, "-B", "-m", "rvmon.reload_worker", src, out], cwd=env.VERIF, env=envv, capture_output=True, timeout=900)
+        if r.returncode != 0 or not os.path.exists(out):
+            res.inconclusive.append(f"fresh-process reload worker failed: {r.stderr[-400:]!r}")
+            return
+        with open(out) as f:
+            results = json.load(f)
+        for item in results:
+            res.count("fresh_process_reloads")
+            if item.get("error"):
+                res.violation(f"{prop}:fresh-process:unloadable:{item['key']}", f"a file written here does not load in a fresh interpreter: {item['error']}", item["desc"])
+            for path, a, b in item.get("diff", []):
+                from . import snapshot as _s
+                res.violation(f"{prop}:fresh-process:{_s.field_key(path)}", f"{path}: the writing process had {a}; a fresh interpreter loads {b}", item["desc"])
+    finally:
+        shutil.rmtree(tdir, ignore_errors=True)
+
+
 def load_path(path):
     """Load by file NAME (the library opens the file itself)."""
     import rv.api as api
